@@ -825,6 +825,13 @@ def check_kernel_mode(sb, kernel, view, key, mod, consts, mode, opts, res, known
         if wit is None:
             wit = "unsat"
         res["witness"] = wit
+        if wit == "unsat" and regions:
+            # is the kernel's whole precondition inside known-finding regions?  then nothing is left to prove here
+            v0, _, _, _ = pf.check(base + [pre] + (cands[0].pc if cands else []), use_cvc5=False)
+            if v0 == "sat" or any(pf.check(base + [pre] + p.pc, use_cvc5=False)[0] == "sat" for p in paths[:8]):
+                wit = "covered-by-known-finding"
+                res["witness"] = wit
+                res["notes"].append("whole input domain lies inside known-finding regions")
         if wit == "unsat" and len(cands) <= 6:
             res["status"] = "vacuous"
             res["reason"] = "precondition and every returning path are contradictory"
